@@ -1,6 +1,6 @@
 (* Correspondence runner for C12: segment pairs with what LineSegment<f64>::intersection_t returned. *)
 From Coq Require Import QArith.
-From LV Require Import Base.Prelude Model.Bezier Model.LineInter.
+From LV Require Import Base.Prelude Model.Bezier Model.LineInter Model.QuadLine.
 Open Scope Q_scope.
 
 (* a case: id, 8 integer coordinates (ax ay bx by cx cy dx dy), result: [] = None, [t;u] = Some *)
@@ -24,3 +24,18 @@ Definition bad_cases (cs : list icase) : list Z :=
                      if Nat.eqb (length m) (length (i_out c)) &&
                         forallb (fun ab => close (fst ab) (snd ab)) (combine (i_out c) m)
                      then [] else [i_id c]) cs.
+
+(* ---- QuadraticBezierSegment::line_intersections_t against Model/QuadLine.v.
+   A case: the curve (lattice control points), the line equation as the code computed it (exact on the harness's domain:
+   axis-parallel lines with a power-of-two direction), the code's square root of the discriminant and the parameters the
+   code returned.  The model runs with that square root; the code rounds the root and two quotients, so the parameters
+   agree to 1e-12 (the harness leaves out the inputs where a rounding decides a comparison). *)
+Record ql_case := mkQL { ql_id : Z; ql_curve : quad; ql_a : Q; ql_b : Q; ql_c : Q; ql_sd : Q; ql_out : list Q }.
+
+Definition ql_close (a b : Q) : bool := Qle_bool (Qabs.Qabs (a - b) * 1000000000000) 1.
+
+Definition ql_bad_cases (cs : list ql_case) : list Z :=
+  flat_map (fun c =>
+    let m := q_line_intersections_t (fun _ => ql_sd c) (ql_curve c) (ql_a c) (ql_b c) (ql_c c) in
+    if Nat.eqb (length m) (length (ql_out c)) && forallb (fun ab => ql_close (fst ab) (snd ab)) (combine (ql_out c) m)
+    then [] else [ql_id c]) cs.
